@@ -78,6 +78,25 @@
 //!    good.  Where the reading of the files is not unambiguous (same name in two visible directories, a component called
 //!    like a Qt class, a file without root object, an unknown named module in a component) the document is not judged
 //!    (`c18-judge`: counted; `c18-judge-all`, used for the chain family and the corpus: a failure).
+//!
+//! Added for the FORMS of an import statement:
+//!  * an import node may carry a version and/or an alias: `(named "qmluic.QtWidgets" (version "6.2"))`,
+//!    `(named "M" (alias "W"))`, `(dir (version "1.0") ".." "b")`, `(dir (alias "B") ".." "b")` (plain nodes as before);
+//!    the files are written with `import M 6.2`, `import "../b" 1.0`, `import "../b" as B`.  What qmluic does with them
+//!    (both where it reads the import list of a discovered component and where it builds the module space of the document
+//!    being translated): a version is a WARNING "import version is ignored" and the statement counts as usual; an alias
+//!    is an ERROR "aliased import is not supported" and the statement is SKIPPED — the document that carries it is
+//!    rejected, a discovered component loses that import (its root type may no longer resolve; the directory of an
+//!    aliased string import is not discovered through it) while the error only goes to the project diagnostics (printed,
+//!    exit status unaffected).  The `diags` of an answer hold errors and warnings alike; `accepted` = no error.
+//!  * every oracle reads import lists through `live` (the statements that count); the judge expects the statement
+//!    diagnostics of the SOURCE and lets the warning pass;
+//!  * the "imports" family (`gen_import_layout`, labels `imports`, `imports:len<k>`, `imports:focus:<style>`,
+//!    `imports:in-source|in-component`, `imports:versioned-named|versioned-dir|aliased|aliased-named|aliased-dir|
+//!    duplicate|own-dir-explicit|unused|qt-last|only-route-versioned|only-route-aliased|version-and-alias|
+//!    chain-mixed-styles|all-random`): a chain of 1..=3 components, each in a directory of its own, used by `app/Main`;
+//!    every link (a file's import of the next directory, of the Qt module) in one of 15 styles; the chain family gives a
+//!    version to one statement in five.
 use crate::env::{self, Mode};
 use crate::rng::Rng;
 use crate::sexp::{atom, boolean, list, node, st, Sexp};
@@ -259,6 +278,32 @@ enum Import {
     Dir(Vec<String>),
 }
 
+/// An import STATEMENT: what is imported plus the version (`import M 6.2`, `import "../b" 1.0`) and the alias
+/// (`import M as W`) the grammar admits.  qmluic reports a version ("import version is ignored", a warning) and then
+/// handles the statement like the plain one; it reports an alias ("aliased import is not supported", an error) and
+/// SKIPS the statement — in the document being translated and in a discovered component alike.
+#[derive(Clone, Debug, PartialEq)]
+struct ImportStmt {
+    what: Import,
+    version: Option<String>,
+    alias: Option<String>,
+}
+
+impl From<Import> for ImportStmt {
+    fn from(what: Import) -> Self {
+        ImportStmt { what, version: None, alias: None }
+    }
+}
+
+fn plain(v: Vec<Import>) -> Vec<ImportStmt> {
+    v.into_iter().map(Into::into).collect()
+}
+
+/// the imports that count: everything but the aliased statements, in source order
+fn live(stmts: &[ImportStmt]) -> impl Iterator<Item = &Import> {
+    stmts.iter().filter(|s| s.alias.is_none()).map(|s| &s.what)
+}
+
 #[derive(Clone, Debug)]
 struct Obj {
     ty: String,
@@ -269,7 +314,7 @@ struct Obj {
 struct QmlFile {
     stem: String,
     has_root: bool,
-    imports: Vec<Import>,
+    imports: Vec<ImportStmt>,
     root: Obj,
     children: Vec<Obj>,
 }
@@ -326,9 +371,19 @@ impl Layout {
                         let imps = f
                             .imports
                             .iter()
-                            .map(|i| match i {
-                                Import::Named(n) => node("named", vec![st(n.clone())]),
-                                Import::Dir(segs) => node("dir", segs.iter().map(|s| st(s.clone())).collect()),
+                            .map(|i| {
+                                // `(version "6.2")` / `(alias "W")` follow the name resp. precede the segments
+                                let mut opts = vec![];
+                                if let Some(v) = &i.version {
+                                    opts.push(node("version", vec![st(v.clone())]));
+                                }
+                                if let Some(a) = &i.alias {
+                                    opts.push(node("alias", vec![st(a.clone())]));
+                                }
+                                match &i.what {
+                                    Import::Named(n) => node("named", std::iter::once(st(n.clone())).chain(opts).collect()),
+                                    Import::Dir(segs) => node("dir", opts.into_iter().chain(segs.iter().map(|s| st(s.clone()))).collect()),
+                                }
                             })
                             .collect();
                         v.push(node(
@@ -379,10 +434,22 @@ impl Layout {
                 let mut imports = vec![];
                 for i in fa[2].as_node()?.1 {
                     let (k, ia) = i.as_node()?;
-                    imports.push(match k {
-                        "named" => Import::Named(ia[0].as_str()?.to_owned()),
-                        _ => Import::Dir(ia.iter().map(|s| s.as_str().map(str::to_owned)).collect::<Option<_>>()?),
-                    });
+                    // options are lists, everything else is a string (the name resp. the segments)
+                    let (mut version, mut alias, mut rest) = (None, None, vec![]);
+                    for x in ia {
+                        match x.as_node() {
+                            Some(("version", v)) => version = Some(v.first()?.as_str()?.to_owned()),
+                            Some(("alias", v)) => alias = Some(v.first()?.as_str()?.to_owned()),
+                            Some(_) => return None,
+                            None => rest.push(x.as_str()?.to_owned()),
+                        }
+                    }
+                    let what = match k {
+                        "named" if rest.len() == 1 => Import::Named(rest.remove(0)),
+                        "dir" => Import::Dir(rest),
+                        _ => return None,
+                    };
+                    imports.push(ImportStmt { what, version, alias });
                 }
                 let children = fa[4].as_node()?.1.iter().map(|o| obj(o.as_list()?)).collect::<Option<_>>()?;
                 files.push(QmlFile {
@@ -429,10 +496,17 @@ impl Layout {
 fn qml_text(f: &QmlFile) -> String {
     let mut s = String::new();
     for i in &f.imports {
-        match i {
-            Import::Named(n) => s.push_str(&format!("import {n}\n")),
-            Import::Dir(segs) => s.push_str(&format!("import \"{}\"\n", segs.join("/"))),
+        match &i.what {
+            Import::Named(n) => s.push_str(&format!("import {n}")),
+            Import::Dir(segs) => s.push_str(&format!("import \"{}\"", segs.join("/"))),
         }
+        if let Some(v) = &i.version {
+            s.push_str(&format!(" {v}"));
+        }
+        if let Some(a) = &i.alias {
+            s.push_str(&format!(" as {a}"));
+        }
+        s.push('\n');
     }
     if !f.has_root {
         return s;
@@ -592,7 +666,7 @@ fn gen_layout(rng: &mut Rng) -> (Layout, Vec<String>) {
                 let at = if clean || rng.chance(3, 4) { 0 } else { rng.below(imports.len() + 1) };
                 imports.insert(at, Import::Named(QT_MODULE.into()));
             }
-            f.imports = imports;
+            f.imports = plain(imports);
             let pool: Vec<String> = if clean {
                 stems_of.iter().filter(|(p, _)| visible.contains(p)).flat_map(|(_, s)| s.iter().cloned()).collect()
             } else {
@@ -611,9 +685,9 @@ fn gen_layout(rng: &mut Rng) -> (Layout, Vec<String>) {
         if i != j {
             let (pi, pj) = (dirs[i].path.clone(), dirs[j].path.clone());
             let fi = rng.below(dirs[i].files.len());
-            dirs[i].files[fi].imports.push(Import::Dir(relative(&pi, &pj)));
+            dirs[i].files[fi].imports.push(Import::Dir(relative(&pi, &pj)).into());
             let fj = rng.below(dirs[j].files.len());
-            dirs[j].files[fj].imports.push(Import::Dir(relative(&pj, &pi)));
+            dirs[j].files[fj].imports.push(Import::Dir(relative(&pj, &pi)).into());
             labels.push("mutual-import".to_owned());
             if rng.chance(1, 2) {
                 // … and components inheriting from each other across the two directories
@@ -863,7 +937,7 @@ fn gen_spelling_layout(rng: &mut Rng, with_links: bool) -> (Layout, Vec<Source>,
                 d.files.push(QmlFile {
                     stem: stem.clone(),
                     has_root: true,
-                    imports: hub_imports.clone(),
+                    imports: plain(hub_imports.clone()),
                     root: Obj { ty: (*rng.pick(&["QWidget", "QDialog", "QGroupBox", "QFrame"])).to_owned(), prop: gen_prop(rng) },
                     children,
                 });
@@ -873,7 +947,7 @@ fn gen_spelling_layout(rng: &mut Rng, with_links: bool) -> (Layout, Vec<Source>,
                 d.files.push(QmlFile {
                     stem: stem.clone(),
                     has_root: true,
-                    imports: vec![Import::Named(QT_MODULE.into())],
+                    imports: plain(vec![Import::Named(QT_MODULE.into())]),
                     root: Obj { ty: root_ty, prop: gen_prop(rng) },
                     children: vec![],
                 });
@@ -908,12 +982,13 @@ fn gen_spelling_layout(rng: &mut Rng, with_links: bool) -> (Layout, Vec<Source>,
 /// decided on the layout and the real file system only, and only where it is unambiguous: at every step exactly one
 /// of the directories the current file sees (its own, its string imports that are existing directories) holds
 /// `<name>.qml`, no component is called like a Qt class, and the file naming the Qt class imports the Qt module.
-fn qt_base_of(layout: &Layout, m: &Materialised, dir: &[String], imports: &[Import], ty: &str, depth: usize) -> Option<String> {
+fn qt_base_of(layout: &Layout, m: &Materialised, dir: &[String], imports: &[ImportStmt], ty: &str, depth: usize) -> Option<String> {
+    let imports: Vec<&Import> = live(imports).collect();
     if depth > 8 {
         return None;
     }
     let mut visible: Vec<Vec<String>> = vec![dir.to_vec()];
-    for i in imports {
+    for i in &imports {
         if let Import::Dir(segs) = i {
             let target = m.dir(dir).join(segs.join("/"));
             if target.is_dir() {
@@ -945,11 +1020,11 @@ fn qt_base_of(layout: &Layout, m: &Materialised, dir: &[String], imports: &[Impo
 /// fully resolved path, the component gets the name under which the file was read first).
 fn gen_alias_layout(rng: &mut Rng) -> (Layout, Vec<Source>, Vec<String>) {
     let qt = || Import::Named(QT_MODULE.into());
-    let comp = |stem: &str, root: &str| QmlFile { stem: stem.into(), has_root: true, imports: vec![qt()], root: Obj { ty: root.into(), prop: None }, children: vec![] };
+    let comp = |stem: &str, root: &str| QmlFile { stem: stem.into(), has_root: true, imports: plain(vec![qt()]), root: Obj { ty: root.into(), prop: None }, children: vec![] };
     let hub = |stem: &str, imports: Vec<Import>, kids: &[&str]| QmlFile {
         stem: stem.into(),
         has_root: true,
-        imports,
+        imports: plain(imports),
         root: Obj { ty: "QWidget".into(), prop: None },
         children: kids.iter().map(|k| Obj { ty: k.to_string(), prop: None }).collect(),
     };
@@ -990,6 +1065,21 @@ fn gen_alias_layout(rng: &mut Rng) -> (Layout, Vec<Source>, Vec<String>) {
 /// the alias family is generated once finding F50 is listed (known or fixed) in KNOWN_FINDINGS.json
 fn f50_listed() -> bool {
     fs::read_to_string(concat!(env!("CARGO_MANIFEST_DIR"), "/../KNOWN_FINDINGS.json")).map(|t| t.contains("\"F50\"")).unwrap_or(false)
+}
+
+const VERSIONS: [&str; 5] = ["6.2", "5.15", "6", "1.0", "2.15"];
+
+/// one time in five the statement gets a version (labels `imports:versioned-named` / `imports:versioned-dir`)
+fn versioned_sometimes(rng: &mut Rng, what: Import, labels: &mut Vec<String>) -> ImportStmt {
+    if rng.chance(1, 5) {
+        labels.push(match what {
+            Import::Named(_) => "imports:versioned-named".to_owned(),
+            Import::Dir(_) => "imports:versioned-dir".to_owned(),
+        });
+        ImportStmt { what, version: Some((*rng.pick(&VERSIONS)).to_owned()), alias: None }
+    } else {
+        what.into()
+    }
 }
 
 // ---------------------------------------------------------------------------------------------
@@ -1185,6 +1275,8 @@ fn gen_chain_layout(rng: &mut Rng, k: usize, variant_offset: usize, qt: &[QtInfo
             }
         }
         let root = Obj { ty: next_ty, prop: if rng.chance(2, 3) { good(rng) } else { None } };
+        // every link of the chain may use another style of import: a version on the statement changes nothing
+        let imports: Vec<ImportStmt> = imports.into_iter().map(|i| versioned_sometimes(rng, i, &mut labels)).collect();
         push(&mut dirs, &comp_dir[i], QmlFile { stem: stems[i].clone(), has_root: true, imports, root, children });
     }
 
@@ -1195,6 +1287,7 @@ fn gen_chain_layout(rng: &mut Rng, k: usize, variant_offset: usize, qt: &[QtInfo
         labels.push(format!("spell:{how}"));
         app_imports.push(Import::Dir(segs));
     }
+    let app_imports: Vec<ImportStmt> = app_imports.into_iter().map(|i| versioned_sometimes(rng, i, &mut labels)).collect();
     let visible: Vec<usize> = (0..len).filter(|&j| comp_dir[j] == app_dir || comp_dir[j] == comp_dir[0]).collect();
     let mut main_children = vec![];
     for &j in &visible {
@@ -1254,7 +1347,7 @@ fn gen_chain_layout(rng: &mut Rng, k: usize, variant_offset: usize, qt: &[QtInfo
         QmlFile {
             stem: "Clean".into(),
             has_root: true,
-            imports: vec![qtw()],
+            imports: plain(vec![qtw()]),
             root: Obj { ty: "QDialog".into(), prop: Some("windowTitle".into()) },
             children: vec![Obj { ty: "QLabel".into(), prop: Some("text".into()) }, Obj { ty: "QPushButton".into(), prop: Some("flat".into()) }],
         },
@@ -1268,7 +1361,7 @@ fn gen_chain_layout(rng: &mut Rng, k: usize, variant_offset: usize, qt: &[QtInfo
             QmlFile {
                 stem: stem.clone(),
                 has_root: true,
-                imports: vec![qtw()],
+                imports: plain(vec![qtw()]),
                 root: Obj { ty: "QWidget".into(), prop: None },
                 children: vec![Obj { ty: stems[i].clone(), prop: good(rng) }, Obj { ty: stems[i].clone(), prop: good(rng) }, Obj { ty: "QPushButton".into(), prop: Some("text".into()) }],
             },
@@ -1290,6 +1383,320 @@ fn gen_chain_layout(rng: &mut Rng, k: usize, variant_offset: usize, qt: &[QtInfo
     rng.shuffle(&mut first);
     rng.shuffle(&mut rest);
     let mut sets = vec![SourceSet { srcs: first, all_orders: true }];
+    for chunk in rest.chunks(4) {
+        sets.push(SourceSet { srcs: chunk.to_vec(), all_orders: false });
+    }
+    labels.sort();
+    labels.dedup();
+    (Layout { dirs, links: vec![], flinks: vec![] }, sets, labels)
+}
+
+// ---------------------------------------------------------------------------------------------
+// the import-forms family: every way an import list can be written
+
+/// how a file imports the Qt module
+#[derive(Clone, Copy, Debug, PartialEq, Eq)]
+enum QtStyle {
+    Plain,
+    Versioned,
+    Twice,
+    VersionedAndPlain,
+    /// after the directory imports (an unused directory import is put in front if there is no other)
+    Last,
+    AliasedOnly,
+    AliasedAndPlain,
+    VersionAndAliasOnly,
+}
+
+/// how a file imports the directory of the type it needs
+#[derive(Clone, Copy, Debug, PartialEq, Eq)]
+enum DirStyle {
+    Plain,
+    Versioned,
+    TwoSpellings,
+    OwnDirExplicitAndVersioned,
+    UnusedInBetween,
+    AliasedOnly,
+    AliasedAndPlain,
+}
+
+const QT_STYLES: [QtStyle; 8] = [
+    QtStyle::Plain,
+    QtStyle::Versioned,
+    QtStyle::Twice,
+    QtStyle::VersionedAndPlain,
+    QtStyle::Last,
+    QtStyle::AliasedOnly,
+    QtStyle::AliasedAndPlain,
+    QtStyle::VersionAndAliasOnly,
+];
+const DIR_STYLES: [DirStyle; 7] = [
+    DirStyle::Plain,
+    DirStyle::Versioned,
+    DirStyle::TwoSpellings,
+    DirStyle::OwnDirExplicitAndVersioned,
+    DirStyle::UnusedInBetween,
+    DirStyle::AliasedOnly,
+    DirStyle::AliasedAndPlain,
+];
+
+fn qt_stmts(style: QtStyle, rng: &mut Rng, labels: &mut Vec<String>) -> Vec<ImportStmt> {
+    let qt = || Import::Named(QT_MODULE.into());
+    let v = |rng: &mut Rng| Some((*rng.pick(&VERSIONS)).to_owned());
+    let alias = |rng: &mut Rng| Some((*rng.pick(&["W", "QtW", "Widgets"])).to_owned());
+    let mut l = |s: &str| labels.push(format!("imports:{s}"));
+    match style {
+        QtStyle::Plain | QtStyle::Last => vec![qt().into()],
+        QtStyle::Versioned => {
+            l("versioned-named");
+            l("only-route-versioned");
+            vec![ImportStmt { what: qt(), version: v(rng), alias: None }]
+        }
+        QtStyle::Twice => {
+            l("duplicate");
+            vec![qt().into(), qt().into()]
+        }
+        QtStyle::VersionedAndPlain => {
+            l("duplicate");
+            l("versioned-named");
+            let mut x = vec![ImportStmt { what: qt(), version: v(rng), alias: None }, qt().into()];
+            if rng.chance(1, 2) {
+                x.reverse();
+            }
+            x
+        }
+        QtStyle::AliasedOnly => {
+            l("aliased");
+            l("aliased-named");
+            l("only-route-aliased");
+            vec![ImportStmt { what: qt(), version: None, alias: alias(rng) }]
+        }
+        QtStyle::AliasedAndPlain => {
+            l("aliased");
+            l("aliased-named");
+            let mut x = vec![ImportStmt { what: qt(), version: None, alias: alias(rng) }, qt().into()];
+            if rng.chance(1, 2) {
+                x.reverse();
+            }
+            x
+        }
+        QtStyle::VersionAndAliasOnly => {
+            l("aliased");
+            l("aliased-named");
+            l("version-and-alias");
+            l("only-route-aliased");
+            vec![ImportStmt { what: qt(), version: v(rng), alias: alias(rng) }]
+        }
+    }
+}
+
+fn dir_stmts(style: DirStyle, rng: &mut Rng, base: &[String], target: &[String], unused: &[String], paths: &[Vec<String>], labels: &mut Vec<String>) -> Vec<ImportStmt> {
+    let v = |rng: &mut Rng| Some((*rng.pick(&VERSIONS)).to_owned());
+    let alias = |rng: &mut Rng| Some((*rng.pick(&["B", "Lib", "Ui"])).to_owned());
+    let way = |rng: &mut Rng| Import::Dir(spell(rng, base, target, paths).0);
+    let mut l = |s: &str| labels.push(format!("imports:{s}"));
+    match style {
+        DirStyle::Plain => vec![way(rng).into()],
+        DirStyle::Versioned => {
+            l("versioned-dir");
+            l("only-route-versioned");
+            vec![ImportStmt { what: way(rng), version: v(rng), alias: None }]
+        }
+        DirStyle::TwoSpellings => {
+            l("duplicate");
+            vec![way(rng).into(), way(rng).into()]
+        }
+        DirStyle::OwnDirExplicitAndVersioned => {
+            l("own-dir-explicit");
+            l("versioned-dir");
+            l("only-route-versioned");
+            vec![Import::Dir(vec![".".into()]).into(), ImportStmt { what: way(rng), version: v(rng), alias: None }]
+        }
+        DirStyle::UnusedInBetween => {
+            l("unused");
+            vec![Import::Dir(relative(base, unused)).into(), way(rng).into(), Import::Dir(relative(base, unused)).into()]
+        }
+        DirStyle::AliasedOnly => {
+            l("aliased");
+            l("aliased-dir");
+            l("only-route-aliased");
+            vec![ImportStmt { what: way(rng), version: if rng.chance(1, 3) { v(rng) } else { None }, alias: alias(rng) }]
+        }
+        DirStyle::AliasedAndPlain => {
+            l("aliased");
+            l("aliased-dir");
+            let mut x = vec![ImportStmt { what: way(rng), version: None, alias: alias(rng) }, way(rng).into()];
+            if rng.chance(1, 2) {
+                x.reverse();
+            }
+            x
+        }
+    }
+}
+
+/// A chain `X0 -> … -> X(len-1) -> Qt widget class` (len 1..=3), every component in a directory of its own, used by
+/// `app/Main`.  Every LINK — Main's import of X0's directory, X(i)'s import of X(i+1)'s directory, the last component's
+/// import of the Qt module, and Main's own import of the Qt module — is written in one of the styles above: with a
+/// version, twice, under two spellings, with the own directory named explicitly, with unused imports around it, the Qt
+/// module last, under an alias (alone: the route is cut; next to a plain statement: the route stands, but the FILE, as a
+/// source, is rejected for the alias).  One link (`k` selects style and position) carries the style under test, the
+/// others a random style that keeps the route (one layout in eight: all random).  A directory `g` is imported under an
+/// alias only: it must not be discovered.  Sources: Main, a document that does not touch the chain, the component files
+/// and a plain user next to every component.
+fn gen_import_layout(rng: &mut Rng, k: usize, qt: &[QtInfo]) -> (Layout, Vec<SourceSet>, Vec<String>) {
+    let len = 1 + (k / 15 + k) % 3;
+    let focus = k % 15;
+    let mut labels = vec!["imports".to_owned(), format!("imports:len{len}")];
+    let all_random = rng.chance(1, 8);
+    if all_random {
+        labels.push("imports:all-random".into());
+    }
+    let d = |s: &[&str]| -> Vec<String> { s.iter().map(|x| x.to_string()).collect() };
+    let app = d(&["app"]);
+    let mut lib_pool: Vec<Vec<String>> = vec![d(&["b"]), d(&["c"]), d(&["lib", "widgets"]), d(&["app", "sub"]), d(&["x1"])];
+    rng.shuffle(&mut lib_pool);
+    let comp_dir: Vec<Vec<String>> = lib_pool[..len].to_vec();
+    let unused = d(&["u"]);
+    let alias_only = d(&["g"]);
+    let mut paths: Vec<Vec<String>> = vec![vec![]];
+    for p in comp_dir.iter().chain([&app, &unused, &alias_only]) {
+        for n in 1..=p.len() {
+            if !paths.contains(&p[..n].to_vec()) {
+                paths.push(p[..n].to_vec());
+            }
+        }
+    }
+    let mut names: Vec<&str> = vec!["Panel", "Fancy", "Base", "MyBox", "Card", "Tile", "Zed"];
+    rng.shuffle(&mut names);
+    let stems: Vec<String> = names[..len].iter().map(|s| s.to_string()).collect();
+    let end_ty = (*rng.pick(&QT_CLASSES[..7])).to_owned();
+    let good_props = qt.iter().find(|q| q.name == end_ty).unwrap().props.clone();
+    let good = |rng: &mut Rng| -> Option<String> { if rng.chance(1, 4) { None } else { Some(rng.pick(&good_props).clone()) } };
+
+    // the links: 0 = Main -> X0's directory, i = X(i-1) -> X(i)'s directory (i < len); Qt links: 0 = Main, i + 1 = X(i)
+    let safe_qt = [QtStyle::Plain, QtStyle::Versioned, QtStyle::Twice, QtStyle::VersionedAndPlain, QtStyle::Last];
+    let safe_dir = [DirStyle::Plain, DirStyle::Versioned, DirStyle::TwoSpellings, DirStyle::OwnDirExplicitAndVersioned, DirStyle::UnusedInBetween];
+    let mut dir_style: Vec<DirStyle> = (0..len).map(|_| if all_random { *rng.pick(&DIR_STYLES) } else { *rng.pick(&safe_dir) }).collect();
+    let mut qt_style: Vec<QtStyle> = (0..=len).map(|_| if all_random { *rng.pick(&QT_STYLES) } else { *rng.pick(&safe_qt) }).collect();
+    if focus < QT_STYLES.len() {
+        // on the last component (the only route to the Qt class) or — every third time — on the source itself
+        let at = if rng.chance(1, 3) { 0 } else { len };
+        qt_style[at] = QT_STYLES[focus];
+        labels.push(format!("imports:focus:{:?}", QT_STYLES[focus]));
+        labels.push(if at == 0 { "imports:in-source" } else { "imports:in-component" }.to_owned());
+    } else {
+        let at = rng.below(len);
+        dir_style[at] = DIR_STYLES[focus - QT_STYLES.len()];
+        labels.push(format!("imports:focus:{:?}", DIR_STYLES[focus - QT_STYLES.len()]));
+        labels.push(if at == 0 { "imports:in-source" } else { "imports:in-component" }.to_owned());
+    }
+    if len >= 2 && dir_style.windows(2).any(|w| w[0] != w[1]) {
+        labels.push("imports:chain-mixed-styles".into());
+    }
+    let assemble = |rng: &mut Rng, base: &[String], qs: QtStyle, ds: Option<(DirStyle, &[String])>, labels: &mut Vec<String>| -> Vec<ImportStmt> {
+        let q = qt_stmts(qs, rng, labels);
+        let mut dd = match ds {
+            Some((s, target)) => dir_stmts(s, rng, base, target, &unused, &paths, labels),
+            None => vec![],
+        };
+        if qs == QtStyle::Last {
+            labels.push("imports:qt-last".into());
+            if dd.is_empty() {
+                labels.push("imports:unused".into());
+                dd.push(Import::Dir(relative(base, &unused)).into());
+            }
+            dd.extend(q);
+            dd
+        } else if rng.chance(1, 3) && !dd.is_empty() {
+            // the Qt module between the directory imports
+            let at = rng.below(dd.len() + 1);
+            for (n, s) in q.into_iter().enumerate() {
+                dd.insert(at + n, s);
+            }
+            dd
+        } else {
+            let mut v = q;
+            v.extend(dd);
+            v
+        }
+    };
+    let qt_child = |rng: &mut Rng| -> Obj { Obj { ty: (*rng.pick(&["QLabel", "QPushButton", "QFrame"])).to_owned(), prop: if rng.chance(1, 2) { Some((*rng.pick(&PROPS[..3])).0.to_owned()) } else { None } } };
+
+    let mut dirs: Vec<Dir> = paths.iter().map(|p| Dir { path: p.clone(), files: vec![] }).collect();
+    let push = |dirs: &mut Vec<Dir>, d: &[String], f: QmlFile| dirs.iter_mut().find(|x| x.path == d).unwrap().files.push(f);
+    let plain_qt = || plain(vec![Import::Named(QT_MODULE.into())]);
+    for i in 0..len {
+        let (next_ty, next): (String, Option<(DirStyle, &[String])>) =
+            if i + 1 < len { (stems[i + 1].clone(), Some((dir_style[i + 1], comp_dir[i + 1].as_slice()))) } else { (end_ty.clone(), None) };
+        let imports = assemble(rng, &comp_dir[i], qt_style[i + 1], next, &mut labels);
+        let mut children = vec![];
+        for _ in 0..rng.below(3) {
+            children.push(qt_child(rng));
+        }
+        push(&mut dirs, &comp_dir[i], QmlFile { stem: stems[i].clone(), has_root: true, imports, root: Obj { ty: next_ty, prop: good(rng) }, children });
+        push(
+            &mut dirs,
+            &comp_dir[i],
+            QmlFile {
+                stem: format!("Use{}", stems[i]),
+                has_root: true,
+                imports: plain_qt(),
+                root: Obj { ty: "QWidget".into(), prop: None },
+                children: vec![Obj { ty: stems[i].clone(), prop: good(rng) }, qt_child(rng), Obj { ty: stems[i].clone(), prop: good(rng) }],
+            },
+        );
+    }
+    let main_imports = assemble(rng, &app, qt_style[0], Some((dir_style[0], comp_dir[0].as_slice())), &mut labels);
+    push(
+        &mut dirs,
+        &app,
+        QmlFile {
+            stem: "Main".into(),
+            has_root: true,
+            imports: main_imports,
+            root: Obj { ty: (*rng.pick(&["QDialog", "QWidget", "QGroupBox"])).to_owned(), prop: Some("windowTitle".into()) },
+            children: vec![Obj { ty: stems[0].clone(), prop: good(rng) }, qt_child(rng), Obj { ty: stems[0].clone(), prop: good(rng) }],
+        },
+    );
+    // a document that touches nothing of the above but imports `g` under an alias only (so it is rejected, and `g` is
+    // never discovered), and one that is simply fine
+    push(
+        &mut dirs,
+        &app,
+        QmlFile {
+            stem: "ViaAlias".into(),
+            has_root: true,
+            imports: vec![Import::Named(QT_MODULE.into()).into(), ImportStmt { what: Import::Dir(relative(&app, &alias_only)), version: None, alias: Some("G".into()) }],
+            root: Obj { ty: "QDialog".into(), prop: None },
+            children: vec![Obj { ty: "QLabel".into(), prop: Some("text".into()) }],
+        },
+    );
+    push(
+        &mut dirs,
+        &app,
+        QmlFile {
+            stem: "Clean".into(),
+            has_root: true,
+            imports: plain_qt(),
+            root: Obj { ty: "QDialog".into(), prop: Some("windowTitle".into()) },
+            children: vec![Obj { ty: "QLabel".into(), prop: Some("text".into()) }],
+        },
+    );
+    push(&mut dirs, &unused, QmlFile { stem: "Unused".into(), has_root: true, imports: plain_qt(), root: Obj { ty: "QFrame".into(), prop: None }, children: vec![] });
+    push(&mut dirs, &alias_only, QmlFile { stem: "InG".into(), has_root: true, imports: plain_qt(), root: Obj { ty: "QFrame".into(), prop: None }, children: vec![] });
+
+    let appf = |s: &str| -> Source { (app.clone(), s.to_owned()) };
+    let mut first: Vec<Source> = vec![appf("Main"), appf("Clean"), (comp_dir[0].clone(), stems[0].clone())];
+    first.push(if len > 1 { (comp_dir[len - 1].clone(), stems[len - 1].clone()) } else { appf("ViaAlias") });
+    let mut rest: Vec<Source> = vec![];
+    if len > 1 {
+        rest.push(appf("ViaAlias"));
+    }
+    rest.extend((1..len.saturating_sub(1)).map(|i| (comp_dir[i].clone(), stems[i].clone())));
+    rest.extend((0..len).map(|i| (comp_dir[i].clone(), format!("Use{}", stems[i]))));
+    rng.shuffle(&mut first);
+    rng.shuffle(&mut rest);
+    let mut sets = vec![SourceSet { srcs: first, all_orders: false }];
     for chunk in rest.chunks(4) {
         sets.push(SourceSet { srcs: chunk.to_vec(), all_orders: false });
     }
@@ -1543,7 +1950,8 @@ impl C18 {
             }
             let Some(ld) = layout.dirs.iter().find(|x| x.path == d) else { continue };
             for f in ld.files.iter().filter(|f| f.has_root) {
-                for i in &f.imports {
+                // an aliased statement is skipped by discovery: its directory is not reached through it
+                for i in live(&f.imports) {
                     if let Import::Dir(segs) = i {
                         let target = m.dir(&d).join(segs.join("/"));
                         if target.is_dir() {
@@ -1768,9 +2176,13 @@ struct Expect {
     customs: BTreeSet<(String, String)>,
 }
 
+const MSG_VERSION_IGNORED: &str = "import version is ignored";
+const MSG_ALIASED: &str = "aliased import is not supported";
+
 impl Expect {
+    /// built and no ERROR: the version warning does not reject
     fn accepted(&self) -> bool {
-        self.built && self.diags.is_empty()
+        self.built && self.diags.iter().all(|d| d == MSG_VERSION_IGNORED)
     }
 }
 
@@ -1792,9 +2204,9 @@ struct Seen {
 
 impl<'a> Judge<'a> {
     /// `base`: the directory of the file as the file is reached (for a source: as named on the command line)
-    fn sees(&self, base: &camino::Utf8Path, own: &[String], imports: &[Import]) -> Seen {
+    fn sees(&self, base: &camino::Utf8Path, own: &[String], imports: &[ImportStmt]) -> Seen {
         let mut s = Seen { dirs: vec![own.to_vec()], dead_imports: 0, qt_imported: false, other_named: 0 };
-        for i in imports {
+        for i in live(imports) {
             match i {
                 Import::Named(n) if n == QT_MODULE => s.qt_imported = true,
                 Import::Named(_) => s.other_named += 1,
@@ -1868,6 +2280,15 @@ impl<'a> Judge<'a> {
     fn expect(&self, p: &[String], rp: &[String], f: &'a QmlFile) -> Result<Expect, &'static str> {
         let seen = self.sees(&self.m.dir(p), rp, &f.imports);
         let mut diags: Vec<String> = vec!["module not found".to_owned(); seen.dead_imports + seen.other_named];
+        // the statements themselves: an alias is an error (and the statement does not count: `sees` skips it), a version
+        // a warning
+        for i in &f.imports {
+            if i.alias.is_some() {
+                diags.push(MSG_ALIASED.to_owned());
+            } else if i.version.is_some() {
+                diags.push(MSG_VERSION_IGNORED.to_owned());
+            }
+        }
         let mut e = Expect { built: false, diags: vec![], objects: vec![], customs: BTreeSet::new() };
         let root = match self.resolve(&seen, &f.root.ty) {
             Res::Skip(w) => return Err(w),
@@ -2209,6 +2630,38 @@ impl Stream for C18 {
                 }
             }
         }
+        // every way an import list can be written (version, alias, repetition, order, unused imports), in sources and in
+        // discovered components: model + the file-system judge + the other oracles
+        let n_imp = if thorough { 360 } else { 60 };
+        for k in 0..n_imp {
+            let mut r2 = Rng::fork(seed, "c18-imports", k as u64);
+            let (layout, sets, labels) = gen_import_layout(&mut r2, k, &self.qt);
+            let tree = layout.to_sexp();
+            for (si, set) in sets.iter().enumerate() {
+                let mut labels = labels.clone();
+                labels.push(format!("sources{}", set.srcs.len()));
+                let mut perms = vec![set.srcs.clone(), set.srcs.iter().rev().cloned().collect::<Vec<_>>()];
+                let mut p = set.srcs.clone();
+                r2.shuffle(&mut p);
+                perms.push(p);
+                perms.dedup();
+                for p in &perms {
+                    cases.push(Case { kind: "model", labels: labels.clone(), request: node("c18", vec![qt.clone(), tree.clone(), sources_sexp(p)]) });
+                }
+                let args = vec![qt.clone(), tree.clone(), sources_sexp(&set.srcs)];
+                cases.push(Case { kind: "spec", labels: labels.clone(), request: node("spec-c18-dirs", args.clone()) });
+                cases.push(Case { kind: "model", labels: labels.clone(), request: node("c18-cliout", args.clone()) });
+                for tag in ["c18-judge-all", "c18-once", "c18-resolve", "c18-reach", "c18-exact"] {
+                    cases.push(Case { kind: "oracle", labels: labels.clone(), request: node(tag, args.clone()) });
+                }
+                if si == 0 {
+                    cases.push(Case { kind: "oracle", labels: labels.clone(), request: node("c18-perms", args.clone()) });
+                }
+                if (k + si) % 6 == 0 {
+                    cases.push(Case { kind: "oracle", labels: labels.clone(), request: node("c18-nolower", args.clone()) });
+                }
+            }
+        }
         for _ in 0..n_layouts {
             let (layout, mut labels) = gen_layout(&mut rng);
             let candidates: Vec<Source> = layout
@@ -2335,7 +2788,7 @@ impl Stream for C18 {
                     // what the file system says about the imports
                     let mut visible: Vec<Vec<String>> = vec![rp.clone()];
                     let mut unresolved = 0usize;
-                    for i in &f.imports {
+                    for i in live(&f.imports) {
                         match i {
                             Import::Named(n) => {
                                 if n != QT_MODULE {
@@ -2360,7 +2813,7 @@ impl Stream for C18 {
                                 st(o.name.clone()),
                                 node("diagnosed", vec![atom(not_found.to_string())]),
                                 node("imports-that-lead-nowhere", vec![atom(unresolved.to_string())]),
-                                node("imports", f.imports.iter().filter_map(|i| if let Import::Dir(x) = i { Some(st(x.join("/"))) } else { None }).collect()),
+                                node("imports", live(&f.imports).filter_map(|i| if let Import::Dir(x) = i { Some(st(x.join("/"))) } else { None }).collect()),
                             ],
                         );
                     }
@@ -2564,7 +3017,7 @@ impl Stream for C18 {
                     let f = d.files.iter().find(|f| &f.stem == s).unwrap();
                     // directories the document sees: its own and the string imports that are directories
                     let mut visible: Vec<Vec<String>> = vec![rp.clone()];
-                    for i in &f.imports {
+                    for i in live(&f.imports) {
                         if let Import::Dir(segs) = i {
                             let target = m.dir(p).join(segs.join("/"));
                             if target.is_dir() {
